@@ -114,4 +114,4 @@ def run(ctx):
     for enz in asm.pick_enzymes(rng, ctx.budget(400, 15000)):
         case = build(rng, enz)
         if case is not None:
-            check_case(ctx, case)
+            ctx.guard(check_case, case)
